@@ -84,7 +84,10 @@ func (enc *encoder) encodeAny(anyField j5reflect.AnyField) error {
 	var jsonData []byte
 	if val.J5Json != nil {
 		jsonData = val.J5Json
-	} else if val.Proto != nil {
+	} else {
+		// No JSON form: render the proto form. An empty proto payload is a
+		// valid encoding (of a message with no fields set), it must not
+		// leave the "value" member without a value.
 
 		mt, err := enc.codec.resolver.FindMessageByName(protoreflect.FullName(val.TypeName))
 		if err != nil {
